@@ -6,8 +6,9 @@ const epsilon = 1e-9
 
 // 👇🏻实现的 EQ 是不正确的, 正确的实现参考 https://floating-point-gui.de/errors/comparison/
 
-func NumEQ(x, y *NumVal) bool { return math.Abs(x.V-y.V) < epsilon }
-func NumNE(x, y *NumVal) bool { return math.Abs(x.V-y.V) >= epsilon }
+// x.V == y.V 处理 ±Inf: Inf-Inf 是 NaN, 之前 1/0 == 1/0 与 1/0 != 1/0 都是 false
+func NumEQ(x, y *NumVal) bool { return x.V == y.V || math.Abs(x.V-y.V) < epsilon }
+func NumNE(x, y *NumVal) bool { return !NumEQ(x, y) }
 func NumLT(x, y *NumVal) bool { return x.V < y.V && NumNE(x, y) }
 func NumLE(x, y *NumVal) bool { return x.V <= y.V || NumEQ(x, y) }
 func NumGT(x, y *NumVal) bool { return x.V > y.V && NumNE(x, y) }
